@@ -728,6 +728,14 @@ pub fn run_check(spec: &CheckSpec, tier: Tier, seed: u64) -> i32 {
         }
     }
 
+    // every finding listed for this property gets its line, also when this run did not come across it again
+    for (p, sgn, d) in known.findings.iter() {
+        if p == prop && !known_v.iter().any(|(s2, _, _)| s2 == sgn) {
+            known_v.push((sgn.clone(), format!("{} [listed; not re-observed in this run]", d), 0));
+        }
+    }
+    known_v.sort();
+
     // --- output
     let wall = t0.elapsed().as_secs_f64();
     let verdict = if !new_v.is_empty() {
